@@ -123,6 +123,7 @@ def inline_json(prog, f, helpers, memo, stack=()):
                 _shift_targets(gt, boff)
             if blk.get("c"):
                 gb["c"] = True
+            gb.setdefault("of", g)       # the function this block was written in (innermost helper for nested inlining)
             j["blocks"].append(gb)
         nt = {"k": "goto", "t": boff, "inl": g}
         nt.update(src)
@@ -189,6 +190,8 @@ def _thread_const_returns(prog, j, ret_local, callee_blocks):
             cp = {"s": [], "t": None}
             if nb.get("c"):
                 cp["c"] = True
+            if nb.get("of"):
+                cp["of"] = nb["of"]
             okb = True
             for st in nb["s"]:
                 cp["s"].append(copy.deepcopy(st))
